@@ -153,7 +153,8 @@ def distance(setmap, p1, p2):
     for pset, count in setmap.items():
         if (p1 in pset) ^ (p2 in pset):
             d += count
-    return d / float(total)
+    # int / int is correctly rounded, whatever the size of the counts.
+    return d / total
 
 
 def divergence(setmap):
